@@ -17,8 +17,12 @@ package main
 //     { return err } }` (SWriteEach; the element kinds int32 / []byte come from go/types and the loop body
 //     must have exactly this shape), `_, err := r.Write(buf.Bytes())`, calls of r.ReadPacket / r.WritePacket,
 //     `r.ReqID = e`, `c := &RCONConn{...}`, `c.Conn, err = net.Dial(...)`;
-//   - (*RCONListener).Accept and ListenRCON, which only create values, are rendered with every expression
-//     as text (the renderer of gate.go) so that an edit of them changes the generated term;
+//   - (*RCONListener).Accept and ListenRCON, which only create values: `l, err := net.Listen(...)` (SListen),
+//     `conn, err := r.Listener.Accept()` (SAcceptConn) and the returned `&T{Field: variable}` (XNew); the
+//     field lists of the structs RCONConn and RCONListener (embedded fields under their implicit name).
+//     Any other struct type in the file, any package-level variable declared in it and any use of a
+//     package-level variable inside a translated body is a loud failure (state shared between connections
+//     is outside the model);
 //   - funcs.go-style SHALLOW definitions over Z / bool (explicit wrap_s, constants folded by go/types) of
 //     every integer comparison used as an `if` condition, of every non-constant slice bound, of the length
 //     handed to make and of the non-trivial int32 elements of WritePacket's list:
@@ -42,20 +46,19 @@ import (
 type c16Fn struct {
 	recv, name, coq string
 	conn            string // "" = the receiver
-	textOnly        bool
 }
 
 var c16Funcs = []c16Fn{
-	{"RCONConn", "ReadPacket", "rcon_ReadPacket", "", false},
-	{"RCONConn", "WritePacket", "rcon_WritePacket", "", false},
-	{"RCONConn", "Cmd", "rcon_Cmd", "", false},
-	{"RCONConn", "Resp", "rcon_Resp", "", false},
-	{"RCONConn", "AcceptLogin", "rcon_AcceptLogin", "", false},
-	{"RCONConn", "AcceptCmd", "rcon_AcceptCmd", "", false},
-	{"RCONConn", "RespCmd", "rcon_RespCmd", "", false},
-	{"", "DialRCON", "rcon_DialRCON", "c", false},
-	{"", "ListenRCON", "rcon_ListenRCON", "l", true},
-	{"RCONListener", "Accept", "rcon_Accept", "", true},
+	{"RCONConn", "ReadPacket", "rcon_ReadPacket", ""},
+	{"RCONConn", "WritePacket", "rcon_WritePacket", ""},
+	{"RCONConn", "Cmd", "rcon_Cmd", ""},
+	{"RCONConn", "Resp", "rcon_Resp", ""},
+	{"RCONConn", "AcceptLogin", "rcon_AcceptLogin", ""},
+	{"RCONConn", "AcceptCmd", "rcon_AcceptCmd", ""},
+	{"RCONConn", "RespCmd", "rcon_RespCmd", ""},
+	{"", "DialRCON", "rcon_DialRCON", "c"},
+	{"", "ListenRCON", "rcon_ListenRCON", "l"},
+	{"RCONListener", "Accept", "rcon_Accept", ""},
 }
 
 type c16ctx struct {
@@ -307,6 +310,7 @@ func (c *c16ctx) x(e ast.Expr) string {
 		if x.Name == "_" {
 			c.fail(e, "blank identifier used as a value")
 		}
+		c.noPkgVar(x)
 		return "(XVar " + cq(x.Name) + ")"
 	case *ast.SelectorExpr:
 		if id, ok := x.X.(*ast.Ident); ok && id.Name == c.conn {
@@ -360,6 +364,33 @@ func (c *c16ctx) x(e ast.Expr) string {
 			}
 		}
 		return fmt.Sprintf("(XSlice %s %s %s)", c.x(x.X), c.optx(x.Low), c.optx(x.High))
+	case *ast.UnaryExpr:
+		// &T{K: v, ...} with plain variables as values: a new record
+		if cl, ok := x.X.(*ast.CompositeLit); ok && x.Op == token.AND {
+			if id, ok := cl.Type.(*ast.Ident); ok {
+				var fs []string
+				for _, el := range cl.Elts {
+					kv, ok := el.(*ast.KeyValueExpr)
+					if !ok {
+						c.fail(el, "%s literal without field names", id.Name)
+					}
+					k, ok1 := kv.Key.(*ast.Ident)
+					v, ok2 := kv.Value.(*ast.Ident)
+					if !ok1 || !ok2 || v.Name == "nil" || v.Name == "_" {
+						c.fail(el, "%s literal: field value is not a plain variable", id.Name)
+					}
+					if _, isVar := c.info.Uses[v].(*types.Var); !isVar {
+						c.fail(el, "%s literal: %s is not a variable", id.Name, v.Name)
+					}
+					if o := c.info.Uses[v]; o.Parent() == c.pkg.Scope() {
+						c.fail(el, "%s literal: %s is a package-level variable", id.Name, v.Name)
+					}
+					fs = append(fs, fmt.Sprintf("(%s, %s)", cq(k.Name), cq(v.Name)))
+				}
+				return fmt.Sprintf("(XNew %s [%s])", cq(id.Name), strings.Join(fs, "; "))
+			}
+		}
+		c.fail(e, "unary operator %s", x.Op)
 	case *ast.CompositeLit:
 		if at, ok := x.Type.(*ast.ArrayType); ok && at.Len == nil {
 			if id, ok := at.Elt.(*ast.Ident); ok && id.Name == "byte" {
@@ -468,6 +499,17 @@ func cbool(b bool) string {
 	return "false"
 }
 
+// noPkgVar: a package-level variable (state shared between connections) is outside the model
+func (c *c16ctx) noPkgVar(id *ast.Ident) {
+	o := c.info.Uses[id]
+	if o == nil {
+		o = c.info.Defs[id]
+	}
+	if v, ok := o.(*types.Var); ok && v.Parent() == c.pkg.Scope() {
+		c.fail(id, "package-level variable %s (state shared between connections is outside the model)", id.Name)
+	}
+}
+
 func (c *c16ctx) idents(es []ast.Expr) []string {
 	var out []string
 	for _, e := range es {
@@ -475,6 +517,7 @@ func (c *c16ctx) idents(es []ast.Expr) []string {
 		if !ok {
 			c.fail(e, "left-hand side is not an identifier")
 		}
+		c.noPkgVar(id)
 		out = append(out, id.Name)
 	}
 	return out
@@ -605,6 +648,22 @@ func (c *c16ctx) assign(s *ast.AssignStmt, ind string) string {
 				return fmt.Sprintf("SNewBuffer %s", cq(c.idents(s.Lhs)[0]))
 			}
 			c.fail(s, "new call shape")
+		case "net.Listen":
+			// l, err := net.Listen("tcp", addr)
+			if ls := c.idents(s.Lhs); def && len(ls) == 2 && ls[1] == "err" {
+				a, err := c.text.gxs(call.Args)
+				if err != nil {
+					c.fail(s, "net.Listen arguments: %v", err)
+				}
+				return fmt.Sprintf("SListen %s %s", cq(ls[0]), cq(a))
+			}
+			c.fail(s, "net.Listen call shape")
+		case c.conn + ".Listener.Accept":
+			// conn, err := r.Listener.Accept()
+			if ls := c.idents(s.Lhs); def && len(ls) == 2 && ls[1] == "err" && len(call.Args) == 0 {
+				return fmt.Sprintf("SAcceptConn %s %s", cq(ls[0]), cq(c.conn))
+			}
+			c.fail(s, "Listener.Accept call shape")
 		case "net.Dial":
 			// c.Conn, err = net.Dial("tcp", addr)
 			if !def && len(s.Lhs) == 2 && c.selName(s.Lhs[0]) == c.conn+".Conn" && c.selName(s.Lhs[1]) == "err" {
@@ -780,49 +839,6 @@ func (c *c16ctx) writeEach(x *ast.RangeStmt) string {
 	return fmt.Sprintf("SWriteEach %s [%s]", cq(b), strings.Join(items, "; "))
 }
 
-// ---------------------------------------------------------------- text-only functions (ListenRCON, Accept)
-
-func (c *c16ctx) textStmt(s ast.Stmt, ind string) string {
-	g := c.text
-	switch x := s.(type) {
-	case *ast.AssignStmt:
-		l, err := g.gxs(x.Lhs)
-		if err != nil {
-			c.fail(s, "%v", err)
-		}
-		r, err := g.gxs(x.Rhs)
-		if err != nil {
-			c.fail(s, "%v", err)
-		}
-		return "SOther " + cq(l+" "+x.Tok.String()+" "+r)
-	case *ast.IfStmt:
-		if x.Init != nil || x.Else != nil {
-			c.fail(s, "if with initialiser or else in a text-only function")
-		}
-		cond, err := g.gx(x.Cond)
-		if err != nil {
-			c.fail(s, "%v", err)
-		}
-		var th []string
-		for _, t := range x.Body.List {
-			th = append(th, c.textStmt(t, ind+"  "))
-		}
-		// the condition is kept as the text of an error value: these functions only test err != nil
-		if cond != "err != nil" {
-			c.fail(s, "condition %q in a text-only function", cond)
-		}
-		return fmt.Sprintf("SIf (XNilCmp CNe (XVar \"err\")) %s []", cblock(th, ind+"  "))
-	case *ast.ReturnStmt:
-		r, err := g.gxs(x.Results)
-		if err != nil {
-			c.fail(s, "%v", err)
-		}
-		return "SOther " + cq("return "+r)
-	}
-	c.fail(s, "statement %T in a text-only function", s)
-	return ""
-}
-
 // ---------------------------------------------------------------- driver
 
 func genC16(repo string) (out string, err error) {
@@ -881,41 +897,57 @@ func genC16(repo string) (out string, err error) {
 		}
 	}
 	var defs, shallow bytes.Buffer
-	// the fields of RCONConn (a connection made by Accept has the zero value of every field it does not set)
+	// the fields of RCONConn and RCONListener (a record made by &T{...} has the zero value of every field the
+	// literal does not set); any OTHER struct type or any package-level variable in the file is a new thing
+	// to model
 	{
-		var fields []string
-		found := false
+		structs := map[string]string{}
 		for _, d := range rcon[0].Decls {
 			gd, ok := d.(*ast.GenDecl)
-			if !ok || gd.Tok != token.TYPE {
+			if !ok {
+				continue
+			}
+			if gd.Tok == token.VAR {
+				return "", fmt.Errorf("%s: package-level variable in net/rcon.go (state shared between connections is outside the model)", fset.Position(gd.Pos()))
+			}
+			if gd.Tok != token.TYPE {
 				continue
 			}
 			for _, sp := range gd.Specs {
 				ts := sp.(*ast.TypeSpec)
 				st, ok := ts.Type.(*ast.StructType)
-				if ts.Name.Name != "RCONConn" || !ok {
+				if !ok {
 					continue
 				}
-				found = true
 				g := &gctx{fset: fset, vars: map[string]string{}, seen: map[string]bool{}}
+				var fields []string
 				for _, f := range st.Fields.List {
 					ty, err := g.gx(f.Type)
 					if err != nil {
 						return "", err
 					}
 					if len(f.Names) == 0 {
-						fields = append(fields, fmt.Sprintf("(%s, %s)", cq(""), cq(ty)))
+						// an embedded field is named after its type (net.Conn -> Conn)
+						fields = append(fields, fmt.Sprintf("(%s, %s)", cq(ty[strings.LastIndex(ty, ".")+1:]), cq("embedded "+ty)))
 					}
 					for _, n := range f.Names {
 						fields = append(fields, fmt.Sprintf("(%s, %s)", cq(n.Name), cq(ty)))
 					}
 				}
+				structs[ts.Name.Name] = "[" + strings.Join(fields, "; ") + "]"
 			}
 		}
-		if !found {
-			return "", fmt.Errorf("net/rcon.go: struct RCONConn not found")
+		for _, want := range []struct{ goName, coq string }{{"RCONConn", "rcon_conn_fields"}, {"RCONListener", "rcon_listener_fields"}} {
+			fs, ok := structs[want.goName]
+			if !ok {
+				return "", fmt.Errorf("net/rcon.go: struct %s not found", want.goName)
+			}
+			delete(structs, want.goName)
+			fmt.Fprintf(&defs, "(* net/rcon.go: type %s struct (field name, declared type) *)\nDefinition %s : list (string * string) := %s.\n\n", want.goName, want.coq, fs)
 		}
-		fmt.Fprintf(&defs, "(* net/rcon.go: type RCONConn struct (embedded fields have the empty name) *)\nDefinition rcon_conn_fields : list (string * string) := [%s].\n\n", strings.Join(fields, "; "))
+		for n := range structs {
+			return "", fmt.Errorf("net/rcon.go: struct type %s is not modelled", n)
+		}
 	}
 	for _, f := range c16Funcs {
 		fd := findFunc(rcon, f.recv, f.name)
@@ -956,14 +988,7 @@ func genC16(repo string) (out string, err error) {
 		}
 		params := "[" + strings.Join(typed(fd.Type.Params), "; ") + "]"
 		results := "[" + strings.Join(typed(fd.Type.Results), "; ") + "]"
-		var body []string
-		if f.textOnly {
-			for _, s := range fd.Body.List {
-				body = append(body, c.textStmt(s, "    "))
-			}
-		} else {
-			body = c.block(fd.Body.List, "    ")
-		}
+		body := c.block(fd.Body.List, "    ")
 		recv := f.recv
 		if recv != "" {
 			recv += "."
